@@ -83,9 +83,48 @@ Definition lenient_func (f : func) : func :=
   mkfunc (f_name f) (f_args f) (f_result f) (f_locals f) (f_exprs f) (f_expr_types f)
          (lblock (f_exprs f) lazy (f_body f)) (f_named f).
 
-Definition lenient (m : module) : module := map_funcs lenient_func m.
+(* ---- ExprAlias (mem2reg): "the value of the source expression" (ir/expression.go: the DXIL
+        emitter resolves it to the source's value id).  Every use of an alias handle is
+        redirected to the source; the alias entry itself becomes an inert literal. ---- *)
+Definition alias_source (e : expr) : option nat :=
+  match e with
+  | EOther t (s :: nil) => if String.eqb t "ExprAlias" then Some s else None
+  | _ => None
+  end.
+
+Fixpoint resolve_alias (fuel : nat) (es : list expr) (h : nat) : nat :=
+  match fuel with
+  | O => h
+  | S fu => match nth_error es h with
+            | Some e => match alias_source e with Some s => resolve_alias fu es s | None => h end
+            | None => h
+            end
+  end.
+
+Fixpoint rstmt (r : nat -> nat) (s : stmt) : stmt :=
+  let fix go (b : list stmt) : list stmt :=
+    match b with [] => [] | x :: b' => rstmt r x :: go b' end in
+  match s with
+  | SEmit _ _ => s
+  | SBlock b => SBlock (go b)
+  | SIf c a rj => SIf (r c) (go a) (go rj)
+  | SSwitch sel cases =>
+    SSwitch (r sel) ((fix goc (cs : list (switch_value * list stmt * bool)) :=
+                        match cs with [] => [] | (v, b, ft) :: cs' => (v, go b, ft) :: goc cs' end) cases)
+  | SLoop b c bi => SLoop (go b) (go c) (option_map r bi)
+  | _ => rename_simple_stmt r s
+  end.
+
+Definition dealias_func (f : func) : func :=
+  if forallb (fun e => match alias_source e with Some _ => false | None => true end) (f_exprs f) then f else
+  let es := f_exprs f in
+  let r := resolve_alias (S (List.length es)) es in
+  mkfunc (f_name f) (f_args f) (f_result f)
+         (map (fun l => mklocal (lv_name l) (lv_type l) (option_map r (lv_init l))) (f_locals f))
+         (map (fun e => match alias_source e with Some _ => ELiteral (LBool false) | None => rename_expr r e end) es)
+         (f_expr_types f) (map (rstmt r) (f_body f)) (f_named f).
+
+Definition lenient (m : module) : module := map_funcs (fun f => lenient_func (dealias_func f)) m.
 
 Definition count_lazy (m : module) : nat :=
-  List.length (filter (fun f => negb (List.length (f_body (lenient_func f)) =? List.length (f_body f))
-                                || negb (block_size (f_body (lenient_func f)) =? block_size (f_body f)))%bool
-                      (all_funcs m)).
+  List.length (filter (fun f => negb (block_size (f_body (lenient_func f)) =? block_size (f_body f))) (all_funcs m)).
